@@ -55,8 +55,8 @@ namespace threading { enum level { single = 0, funneled = 1, serialized = 2, mul
 
 namespace vmpi {
 
-enum Kind { NONE = 0, BCAST, REDUCE, SCATTER, RETURNED };
-inline const char *kind_name(int k) { static const char *n[] = {"running", "broadcast", "reduce", "scatter", "returned"}; return n[k]; }
+enum Kind { NONE = 0, BCAST, REDUCE, SCATTER, RETURNED, RECV };
+inline const char *kind_name(int k) { static const char *n[] = {"running", "broadcast", "reduce", "scatter", "returned", "recv"}; return n[k]; }
 
 struct RankState {
     int kind = NONE, root = -1; long seq = 0;
@@ -65,6 +65,7 @@ struct RankState {
     std::string in_payload;                  // what this rank receives
     bool waiting = false, returned = false;
     std::vector<int> group;                  // world ranks taking part in the pending collective (empty = the whole world)
+    int tag = 0;                             // pending recv: wanted tag (-1 = any); root = wanted source as world rank (-1 = any)
     std::function<std::string(const std::string&, const std::string&)> op;   // reduce: combine two serialized values
     bool commutative = false;
 };
@@ -81,6 +82,8 @@ struct World {
     uint64_t collectives = 0, reduce_max_outcomes = 0, reduce_multi = 0;
     std::vector<std::string> rank_errors;
     std::vector<int> baton_order;            // order in which runnable ranks are tried
+    struct Msg { int src, dst, tag; std::string payload; };
+    std::vector<Msg> mail;                   // point-to-point messages in flight (sends are buffered, order of posting is kept)
     explicit World(int P) : P(P), rs(P) { for (int i = 0; i < P; ++i) baton_order.push_back(i); }
 };
 
@@ -185,9 +188,20 @@ inline void execute_collective(World &w, const std::vector<int> &G) {
 }
 // A collective can run when every member of its group waits in the same collective of the same communicator. Returns false
 // if no pending collective is complete (then nobody can ever run again: deadlock).
+// index of the first message in flight that rank r's pending (or about to be posted) recv accepts, -1 if none
+inline int match_message(World &w, int r, int src, int tag) {
+    for (std::size_t i = 0; i < w.mail.size(); ++i) if (w.mail[i].dst == r && (src < 0 || w.mail[i].src == src) && (tag < 0 || w.mail[i].tag == tag)) return (int) i;
+    return -1;
+}
 inline bool execute_some_collective(World &w) {
+    // point-to-point: a rank blocked in recv resumes as soon as a matching message is in flight
     for (int r = 0; r < w.P; ++r) {
-        if (w.rs[r].returned || !w.rs[r].waiting) continue;
+        if (w.rs[r].returned || !w.rs[r].waiting || w.rs[r].kind != RECV) continue;
+        int i = match_message(w, r, w.rs[r].root, w.rs[r].tag);
+        if (i >= 0) { w.rs[r].in_payload = w.mail[i].payload; w.rs[r].root = w.mail[i].src; w.rs[r].tag = w.mail[i].tag; w.mail.erase(w.mail.begin() + i); w.rs[r].waiting = false; return true; }
+    }
+    for (int r = 0; r < w.P; ++r) {
+        if (w.rs[r].returned || !w.rs[r].waiting || w.rs[r].kind == RECV) continue;
         std::vector<int> G = group_of(w, r);
         bool same = true;
         for (int i : G) same &= !w.rs[i].returned && w.rs[i].waiting && w.rs[i].kind == w.rs[r].kind && w.rs[i].root == w.rs[r].root && group_of(w, i) == G
@@ -295,6 +309,12 @@ public:
     int world_rank_of(int comm_rank) const { return members_ ? members_->at(comm_rank) : comm_rank; }
     const std::vector<int> *members() const { return members_.get(); }
     void barrier() const;
+    // point-to-point: sends are buffered (never block), recv blocks until a matching message is in flight; messages between
+    // one pair of ranks with one tag are received in the order they were sent
+    template<class T> void send(int dest, int tag, const T &value) const;
+    void send(int dest, int tag) const { send(dest, tag, 0); }
+    template<class T> int recv(int source, int tag, T &value) const;        // returns the source (comm-relative)
+    int recv(int source, int tag) const { int dummy; return recv(source, tag, dummy); }
     // split by colour, ranks ordered by world rank (the harness's way to obtain sub-communicators; one collective)
     communicator split(int color) const;
 private:
@@ -358,6 +378,22 @@ void scatter(const communicator &comm, const std::vector<T> &in_values, T &out_v
 template<class T>
 void scatter(const communicator &comm, T &out_value, int root) { scatter(comm, std::vector<T>(), out_value, root); }
 
+constexpr int any_source = -1, any_tag = -1;
+template<class T> void communicator::send(int dest, int tag, const T &value) const {
+    vmpi::World &w = *vmpi::current_world();
+    w.mail.push_back({vmpi::current_rank(), world_rank_of(dest), tag, vmpi::pack(value)});
+}
+template<class T> int communicator::recv(int source, int tag, T &value) const {
+    vmpi::World &w = *vmpi::current_world(); int r = vmpi::current_rank();
+    vmpi::RankState &s = w.rs[r];
+    s.group.clear(); s.kind = vmpi::RECV; s.root = source < 0 ? -1 : world_rank_of(source); s.tag = tag; s.waiting = true;     // (seq counts collectives only)
+    vmpi::yield_to_scheduler(w, r);
+    vmpi::unpack(s.in_payload, value);
+    int src_world = s.root;
+    if (!members_) return src_world;
+    for (std::size_t i = 0; i < members_->size(); ++i) if ((*members_)[i] == src_world) return (int) i;
+    return -1;
+}
 // barrier: everybody of the communicator must arrive (modelled as a broadcast of nothing from its rank 0)
 inline void communicator::barrier() const { if (!vmpi::current_world()) return; int dummy = 0; broadcast(*this, dummy, 0); }
 inline communicator communicator::split(int color) const {
